@@ -17,7 +17,8 @@ Local Open Scope N_scope.
    id is absent; the recording entry points fill a static thread_local cache from it once;
    getCachedString is `find by pointer; insert a copy if absent; return the mapped string` and
    ThreadEventList has no data member besides events, threadName, stringCache; every name and
-   category an event stores went through it *)
+   category an event stores went through it; saveLog takes the lock first and touches threadTrace
+   only as the range of its loop (the map is not moved from, swapped, cleared or assigned) *)
 Theorem facts_trace_match : tr_eqb gen_tr model_tr = true.
 Proof. exact FactsCheckTrace.tr_match_lemma. Qed.
 Print Assumptions facts_trace_match.
@@ -30,6 +31,7 @@ Theorem facts_trace_model :
   (forall b e, is_long_of gen_tr b e = is_long b e) /\
   tr_chunk gen_tr = chunk_size /\ tr_reserve gen_tr = chunk_size /\
   (forall r id, reg_attach_of gen_tr r id = reg_attach r id) /\
-  (forall c p text, sc_lookup_of gen_tr c p text = Some (sc_lookup c p text)).
+  (forall c p text, sc_lookup_of gen_tr c p text = Some (sc_lookup c p text)) /\
+  (forall r x, hist_step_of gen_tr r x = hist_step r x).
 Proof. exact FactsCheckTrace.tr_sound_lemma. Qed.
 Print Assumptions facts_trace_model.
